@@ -1,5 +1,455 @@
 package c15
 
-import "github.com/samsarahq/thunder/verifharness/vlib"
+import (
+	"context"
+	"errors"
+	"fmt"
+	"io"
+	"net/http"
+	"net/http/httptest"
+	"strings"
+	"sync"
+	"sync/atomic"
+	"time"
 
-func runM4(run *vlib.Run) {}
+	"github.com/samsarahq/thunder/batch"
+	"github.com/samsarahq/thunder/federation"
+	"github.com/samsarahq/thunder/graphql"
+	"github.com/samsarahq/thunder/thunderpb"
+	"github.com/samsarahq/thunder/verifharness/vlib"
+)
+
+// ---------------------------------------------------------------------------
+// Monitor 4: cancellation and leaks (fault enumeration). The request context
+// is cancelled at each of an enumerated set of points; resolvers and
+// sub-query clients honour the context. Oracle: the call returns (quiescent
+// and not returned = violation with the stacks as witness); afterwards no
+// goroutine with a thunder frame is left beyond the baseline.
+
+// m4Ctl is the per-scenario fault plan consulted by resolver and client hooks.
+type m4Ctl struct {
+	cancel     context.CancelFunc
+	once       sync.Once
+	cancelled  chan struct{}
+	cancelAt   int64  // resolver entry number at which to cancel (0 = never)
+	behaviour  string // sync | block | ignore
+	entries    int64
+	subqueries int64
+	events     int64
+
+	subCancelBefore int64  // cancel before forwarding sub-query j
+	subCancelAfter  int64  // cancel after sub-query j returned
+	subForward      bool   // after cancelling before sub-query j: forward anyway (true) or return ctx.Err() (false)
+	failService     string // this service fails immediately ("sibling failed")
+	blockOthers     bool   // the other services wait for the context to be cancelled before they continue
+	othersForward   bool   // ... and then forward anyway (true) or return ctx.Err()
+}
+
+func (c *m4Ctl) fire() {
+	c.once.Do(func() {
+		if c.cancel != nil {
+			c.cancel()
+		}
+		close(c.cancelled)
+	})
+}
+
+var m4Current atomic.Value // *m4Ctl
+
+func m4ctl() *m4Ctl {
+	c, _ := m4Current.Load().(*m4Ctl)
+	return c
+}
+
+// m4ResolverHook is installed in every resolver of the schemas under test.
+func m4ResolverHook(ctx context.Context, name string) error {
+	c := m4ctl()
+	if c == nil {
+		return nil
+	}
+	n := atomic.AddInt64(&c.entries, 1)
+	atomic.AddInt64(&c.events, 1)
+	if c.cancelAt != 0 && n == c.cancelAt {
+		switch c.behaviour {
+		case "sync":
+			c.fire()
+		case "block": // a slow backend call that honours its context
+			go c.fire()
+			select {
+			case <-ctx.Done():
+				return ctx.Err()
+			case <-c.cancelled:
+				select {
+				case <-ctx.Done():
+					return ctx.Err()
+				case <-time.After(50 * time.Millisecond): // ctx is not derived from the request: still give up
+					return context.Canceled
+				}
+			}
+		case "ignore": // returns its value; it does not block, so it need not look at ctx
+			c.fire()
+			return nil
+		}
+	}
+	if err := ctx.Err(); err != nil {
+		return err
+	}
+	return nil
+}
+
+// m4ClientHook runs before a federated sub-query is forwarded.
+func m4ClientHook(ctx context.Context, service string, req *federation.QueryRequest) error {
+	c := m4ctl()
+	if c == nil {
+		return nil
+	}
+	j := atomic.AddInt64(&c.subqueries, 1)
+	atomic.AddInt64(&c.events, 1)
+	if c.failService != "" {
+		if service == c.failService {
+			return errors.New("injected sub-query failure")
+		}
+		if c.blockOthers {
+			select {
+			case <-ctx.Done():
+			case <-time.After(20 * time.Second): // never expected: errgroup cancels ctx when the sibling fails
+				return errors.New("harness: context was not cancelled after the sibling failed")
+			}
+			if !c.othersForward {
+				return ctx.Err()
+			}
+		}
+		return nil
+	}
+	if c.subCancelBefore != 0 && j == c.subCancelBefore {
+		c.fire()
+		if !c.subForward {
+			return ctx.Err()
+		}
+		return nil
+	}
+	if err := ctx.Err(); err != nil && !c.subForward {
+		return err
+	}
+	return nil
+}
+
+func m4ClientAfter(ctx context.Context, service string) {
+	c := m4ctl()
+	if c == nil {
+		return
+	}
+	atomic.AddInt64(&c.events, 1)
+	if c.subCancelAfter != 0 && atomic.LoadInt64(&c.subqueries) == c.subCancelAfter {
+		c.fire()
+	}
+}
+
+type m4Scenario struct {
+	Target    string // http | executor | fedserver | gateway
+	Point     string
+	K         int64  // resolver entry / sub-query number
+	Behaviour string // resolver behaviour at the cancellation point
+	Forward   bool
+}
+
+func (s m4Scenario) String() string {
+	return fmt.Sprintf("%s|%s|k=%d|%s|forward=%v", s.Target, s.Point, s.K, s.Behaviour, s.Forward)
+}
+
+const (
+	m4ZooQuery = `{ items { id upper costly parent { id costly } related { ... on Item { id } ... on Gadget { label } } } itemsExpensive { id costly } echo(s: "x") }`
+	m4S1Query  = `{ users { id name device { id } peer { ... on User { id } } } s1echo(s: "a") }`
+	m4GwQuery  = `{ users { id name secret greet device { id isOn } } s2root s1echo(s: "x") s2users { id } }`
+)
+
+type m4Env struct {
+	zoo      *graphql.Schema
+	gw       *gateway
+	ignore   []string // goroutines that are not this scenario's business
+	zooE     int64    // resolver entries of an undisturbed run
+	s1E      int64
+	gwE      int64
+	gwJ      int64 // sub-queries of an undisturbed gateway run
+	bodyRead int64
+}
+
+// cancelBody cancels the request context when the body has been read fully:
+// the client goes away between sending the request and the first run.
+type cancelBody struct {
+	r    *strings.Reader
+	ctl  *m4Ctl
+	fire bool
+}
+
+func (b *cancelBody) Read(p []byte) (int, error) {
+	n, err := b.r.Read(p)
+	if (err == io.EOF || b.r.Len() == 0) && b.fire {
+		atomic.AddInt64(&b.ctl.events, 1)
+		b.ctl.fire()
+	}
+	return n, err
+}
+func (b *cancelBody) Close() error { return nil }
+
+// m4Call performs the target call of sc under ctl and returns when it does.
+func (e *m4Env) call(sc m4Scenario, ctx context.Context, ctl *m4Ctl) func() {
+	switch sc.Target {
+	case "http":
+		var mws []graphql.MiddlewareFunc
+		switch sc.Point {
+		case "middleware_before_execute":
+			mws = append(mws, func(in *graphql.ComputationInput, next graphql.MiddlewareNextFunc) *graphql.ComputationOutput {
+				atomic.AddInt64(&ctl.events, 1)
+				ctl.fire()
+				return next(in)
+			})
+		case "middleware_after_execute":
+			mws = append(mws, func(in *graphql.ComputationInput, next graphql.MiddlewareNextFunc) *graphql.ComputationOutput {
+				out := next(in)
+				atomic.AddInt64(&ctl.events, 1)
+				ctl.fire()
+				return out
+			})
+		}
+		h := graphql.HTTPHandler(e.zoo, mws...)
+		return func() {
+			body := &cancelBody{r: strings.NewReader(`{"query":` + jsonString(m4ZooQuery) + `,"variables":{}}`), ctl: ctl, fire: sc.Point == "during_body_read"}
+			req, _ := http.NewRequest("POST", "/graphql", body)
+			req = req.WithContext(ctx)
+			h.ServeHTTP(httptest.NewRecorder(), req)
+		}
+	case "executor":
+		q, err := graphql.Parse(m4ZooQuery, nil)
+		if err == nil {
+			err = graphql.PrepareQuery(ctx, e.zoo.Query, q.SelectionSet)
+		}
+		if err != nil {
+			panic("harness: " + err.Error())
+		}
+		if sc.Point == "after_parse" {
+			ctl.fire()
+		}
+		ex := graphql.NewExecutor(graphql.NewImmediateGoroutineScheduler())
+		return func() { _, _ = ex.Execute(batch.WithBatching(ctx), e.zoo.Query, nil, q) }
+	case "fedserver":
+		q, err := graphql.Parse(m4S1Query, nil)
+		if err != nil {
+			panic("harness: " + err.Error())
+		}
+		m, err := federation.MarshalQuery(q)
+		if err != nil {
+			panic("harness: " + err.Error())
+		}
+		if sc.Point == "after_parse" {
+			ctl.fire()
+		}
+		if sc.Forward { // package-level entry point instead of the method
+			ex := graphql.NewExecutor(graphql.NewImmediateGoroutineScheduler())
+			return func() {
+				_, _ = federation.ExecuteRequest(ctx, &thunderpb.ExecuteRequest{Query: m}, e.gw.schemas["s1"], ex)
+			}
+		}
+		return func() { _, _ = e.gw.servers["s1"].Execute(ctx, &thunderpb.ExecuteRequest{Query: m}) }
+	case "gateway":
+		q, err := graphql.Parse(m4GwQuery, nil)
+		if err != nil {
+			panic("harness: " + err.Error())
+		}
+		if sc.Point == "after_parse" {
+			ctl.fire()
+		}
+		return func() { _, _, _ = e.gw.exec.Execute(ctx, q, nil) }
+	}
+	panic("harness: unknown target " + sc.Target)
+}
+
+func newCtl(sc m4Scenario, cancel context.CancelFunc) *m4Ctl {
+	ctl := &m4Ctl{cancel: cancel, cancelled: make(chan struct{}), behaviour: sc.Behaviour}
+	switch sc.Point {
+	case "resolver_entry":
+		ctl.cancelAt = sc.K
+	case "before_subquery":
+		ctl.subCancelBefore, ctl.subForward = sc.K, sc.Forward
+	case "after_subquery":
+		ctl.subCancelAfter, ctl.subForward = sc.K, true
+	case "sibling_failed":
+		ctl.failService = []string{"s1", "s2"}[sc.K%2]
+		ctl.blockOthers = sc.Behaviour == "block"
+		ctl.othersForward = sc.Forward
+		ctl.cancel = nil // no outside cancellation: errgroup cancels the siblings' context
+	}
+	return ctl
+}
+
+func runM4(run *vlib.Run) {
+	env := &m4Env{zoo: buildZoo(m4ResolverHook)}
+	gw, err := buildGateway(m4ResolverHook)
+	if err != nil {
+		run.Broken("m4: cannot build gateway: " + err.Error())
+		return
+	}
+	defer gw.cancel()
+	gw.setHooks(m4ClientHook, m4ClientAfter)
+	env.gw = gw
+	env.ignore = []string{"federation.(*Executor).poll"}
+
+	// undisturbed runs: count resolver entries and sub-queries
+	for _, t := range []string{"http", "fedserver", "gateway"} {
+		ctl := newCtl(m4Scenario{Target: t, Point: "none"}, nil)
+		m4Current.Store(ctl)
+		ctx, cancel := context.WithCancel(context.Background())
+		env.call(m4Scenario{Target: t, Point: "none"}, ctx, ctl)()
+		cancel()
+		switch t {
+		case "http":
+			env.zooE = atomic.LoadInt64(&ctl.entries)
+		case "fedserver":
+			env.s1E = atomic.LoadInt64(&ctl.entries)
+		case "gateway":
+			env.gwE, env.gwJ = atomic.LoadInt64(&ctl.entries), atomic.LoadInt64(&ctl.subqueries)
+		}
+	}
+	m4Current.Store((*m4Ctl)(nil))
+	run.Set("m4_undisturbed", map[string]interface{}{"zoo_resolver_entries": env.zooE, "s1_resolver_entries": env.s1E, "gateway_resolver_entries": env.gwE, "gateway_subqueries": env.gwJ})
+	if env.zooE < 10 || env.gwJ < 3 || env.s1E < 3 {
+		run.Broken(fmt.Sprintf("m4: undisturbed runs too small: zooE=%d s1E=%d gwE=%d gwJ=%d", env.zooE, env.s1E, env.gwE, env.gwJ))
+		return
+	}
+
+	var scs []m4Scenario
+	behaviours := []string{"sync", "block", "ignore"}
+	ks := func(max int64, quickStep int64) []int64 {
+		var out []int64
+		step := int64(1)
+		if !run.Thorough() {
+			step = quickStep
+		}
+		for k := int64(1); k <= max; k += step {
+			out = append(out, k)
+		}
+		if out[len(out)-1] != max {
+			out = append(out, max)
+		}
+		return out
+	}
+	for _, t := range []string{"http", "executor", "fedserver", "gateway"} {
+		scs = append(scs, m4Scenario{Target: t, Point: "before_call"})
+		if t != "http" {
+			scs = append(scs, m4Scenario{Target: t, Point: "after_parse"})
+		}
+	}
+	scs = append(scs, m4Scenario{Target: "fedserver", Point: "before_call", Forward: true},
+		m4Scenario{Target: "http", Point: "during_body_read"},
+		m4Scenario{Target: "http", Point: "middleware_before_execute"},
+		m4Scenario{Target: "http", Point: "middleware_after_execute"})
+	for bi, b := range behaviours {
+		for _, k := range ks(env.zooE, 3) {
+			scs = append(scs, m4Scenario{Target: []string{"http", "executor"}[int(k+int64(bi))%2], Point: "resolver_entry", K: k, Behaviour: b})
+			if run.Thorough() {
+				scs = append(scs, m4Scenario{Target: []string{"executor", "http"}[int(k+int64(bi))%2], Point: "resolver_entry", K: k, Behaviour: b})
+			}
+		}
+		for _, k := range ks(env.s1E, 2) {
+			scs = append(scs, m4Scenario{Target: "fedserver", Point: "resolver_entry", K: k, Behaviour: b, Forward: k%2 == 0})
+		}
+		for _, k := range ks(env.gwE, 3) {
+			scs = append(scs, m4Scenario{Target: "gateway", Point: "resolver_entry", K: k, Behaviour: b})
+		}
+	}
+	for j := int64(1); j <= env.gwJ; j++ {
+		scs = append(scs, m4Scenario{Target: "gateway", Point: "before_subquery", K: j, Forward: false},
+			m4Scenario{Target: "gateway", Point: "before_subquery", K: j, Forward: true},
+			m4Scenario{Target: "gateway", Point: "after_subquery", K: j})
+	}
+	for k := int64(0); k < 2; k++ {
+		scs = append(scs, m4Scenario{Target: "gateway", Point: "sibling_failed", K: k, Behaviour: "none"},
+			m4Scenario{Target: "gateway", Point: "sibling_failed", K: k, Behaviour: "block", Forward: false},
+			m4Scenario{Target: "gateway", Point: "sibling_failed", K: k, Behaviour: "block", Forward: true})
+	}
+	run.Set("m4_scenarios", len(scs))
+	section(run, offM4, len(scs), 1, func(k int) { env.runScenario(run, offM4+k, scs[k]) })
+	m4Current.Store((*m4Ctl)(nil))
+}
+
+func (e *m4Env) runScenario(run *vlib.Run, caseIdx int, sc m4Scenario) {
+	fmt.Println("CASE", caseIdx, "m4", sc.String())
+	run.Case("m4|"+sc.String(), true)
+	run.Count("m4:scenarios", 1)
+	run.Count("m4:target:"+sc.Target, 1)
+	run.Count("m4:point:"+sc.Point, 1)
+
+	base := append(goroutineIDs(), e.ignore...)
+	ctx, cancel := context.WithCancel(context.Background())
+	defer cancel()
+	ctl := newCtl(sc, cancel)
+	m4Current.Store(ctl)
+	if sc.Point == "before_call" {
+		ctl.fire()
+	}
+	f := e.call(sc, ctx, ctl)
+	activity := func() int64 { return atomic.LoadInt64(&ctl.events) + atomic.LoadInt64(&e.gw.calls) }
+	status, rec := callGuarded(sc.Target, activity, time.Second, 10*time.Second, f)
+	wit := func(what string) map[string]interface{} {
+		select {
+		case <-ctl.cancelled:
+		default:
+			if sc.Point != "sibling_failed" {
+				what += " (note: the planned cancellation point was never reached)"
+			}
+		}
+		return map[string]interface{}{"monitor": "4 cancellation and leaks", "scenario": sc.String(), "target": sc.Target, "cancellation_point": sc.Point, "k": sc.K,
+			"resolver_behaviour": sc.Behaviour, "what": what, "resolver_entries": atomic.LoadInt64(&ctl.entries), "subqueries": atomic.LoadInt64(&ctl.subqueries),
+			"expected": "the call returns promptly and leaves no goroutine behind"}
+	}
+	switch status {
+	case callPanicked:
+		w := wit("a panic escaped the call")
+		w["panic"], w["stack"] = rec.Value, rec.Stack
+		run.Violation(caseIdx, classifyPanic("", rec.Value, rec.TopFrame), w)
+		return
+	case callHung:
+		stacks := thunderStacks(base)
+		w := wit("the call did not return and the process went quiet")
+		w["stacks"] = stacks
+		run.Count("m4:hangs", 1)
+		run.Violation(caseIdx, classifyHang(sc.Target, stacks), w)
+		// the stuck goroutines stay for the rest of the run: not the next scenario's business
+		for _, g := range vlib.ThunderGoroutines(base...) {
+			if m := goroutineHeader.FindStringSubmatch(g); m != nil {
+				e.ignore = append(e.ignore, "goroutine "+m[1]+" [")
+			}
+		}
+		return
+	case callUndecided:
+		run.Inconclusive(fmt.Sprintf("m4 case %d (%s): still busy at the hard deadline", caseIdx, sc.String()))
+		return
+	}
+	select {
+	case <-ctl.cancelled:
+		run.Count("m4:cancellation_point_reached", 1)
+	default:
+		if sc.Point != "sibling_failed" && sc.Point != "none" {
+			run.Count("m4:cancellation_point_not_reached", 1)
+		}
+	}
+	if left := vlib.WaitNoThunderGoroutines(100, base...); len(left) > 0 {
+		w := wit(fmt.Sprintf("%d goroutine(s) with a thunder frame are still alive 100 settle polls after the call returned", len(left)))
+		for i := range left {
+			left[i] = vlib.Trunc(left[i], 2500)
+		}
+		if len(left) > 8 {
+			left = left[:8]
+		}
+		w["leaked_goroutines"] = left
+		run.Violation(caseIdx, classifyHang(sc.Target, left), w)
+		for _, g := range vlib.ThunderGoroutines(base...) {
+			if m := goroutineHeader.FindStringSubmatch(g); m != nil {
+				e.ignore = append(e.ignore, "goroutine "+m[1]+" [")
+			}
+		}
+	}
+	if run.WantSample() && caseIdx%11 == 0 {
+		run.Sample(map[string]interface{}{"monitor": 4, "scenario": sc.String(), "resolver_entries": atomic.LoadInt64(&ctl.entries), "subqueries": atomic.LoadInt64(&ctl.subqueries)})
+	}
+}
